@@ -302,6 +302,35 @@ def main():
             badv = [v for v, r in okv.items() if r["obj"] != V2S[v[0]] or r["voigt"] != v[0]][0]
             fail(chk, "voigt-table", "E_.from_voigt(%d) = %s" % (badv[0], okv[badv]["obj"]), dict(args=list(badv)))
 
+    # ---- integer / string type twin: the one-argument spellings given as numpy integers / numpy strings ------------------------------
+    import numpy
+    bad_t = None
+    n_t = 0
+    for a in range(1, 7):
+        for b in range(1, 7):
+            want = c_(a, b)
+            s2 = "%d%d" % (a, b)
+            for label, arg in (("numpy.int64(%s)" % s2, numpy.int64(int(s2))), ("numpy.int32(%s)" % s2, numpy.int32(int(s2))), ("numpy.str_('%s')" % s2, numpy.str_(s2))):
+                n_t += 1
+                try:
+                    got = c_(arg)
+                    if got != want or hash(got) != hash(want):
+                        bad_t = bad_t or ("c_(%s) is %r, c_(%d, %d) is %r" % (label, got, a, b, want))
+                except Exception as e:
+                    bad_t = bad_t or ("c_(%s) raises %s: %s, c_(%s) works" % (label, type(e).__name__, str(e)[:60], s2))
+    for v in range(1, 7):
+        n_t += 1
+        try:
+            if e_(numpy.int64(v)) != e_(v):
+                bad_t = bad_t or ("e_(numpy.int64(%d)) differs from e_(%d)" % (v, v))
+        except Exception as e:
+            bad_t = bad_t or ("e_(numpy.int64(%d)) raises %s: %s, e_(%d) works" % (v, type(e).__name__, str(e)[:60], v))
+    if bad_t:
+        chk.violation("spelling:numpy-scalars", "integer / string spellings given as numpy scalars (what arithmetic on index arrays produces) do not agree "
+                      "with the plain ones: %s" % bad_t, {})
+    else:
+        chk.side_check("type twin: %d one-argument spellings as numpy.int64 / int32 / str_ agree with the plain int / str ones" % n_t, True)
+
     # ---- CrossHair cross-check (thorough): the two-index conditions -------------------------------------
     if tier == "thorough":
         crosshair_crosscheck(chk)
